@@ -129,6 +129,9 @@ var jobTable = map[string]jobSet{
 			// gRPC's connect timeout: every Dial has a 20 s context while the
 			// application keeps each connection for 30 s
 			{Scenario: "sess/rounds=2/hold=30s/dialto=20s", Budgets: bs(B(1, 0)), Filter: "mailbox", Split: 1},
+			// every mutex operation a scheduling point (interleavings
+			// inside Close, Dial and Accept)
+			{Scenario: "sess/rounds=2/locks", Budgets: bs(B(1, 0)), Filter: "mailbox", Split: 1},
 		},
 		thorough: []Job{
 			{Scenario: "sess/rounds=2/intruder", Budgets: bs(B(2, 0)), Filter: "mailbox", Split: 2},
@@ -140,6 +143,8 @@ var jobTable = map[string]jobSet{
 			{Scenario: "sess/rounds=2/closer=server/v=1/down=8s", Budgets: bs(B(1, 1)), Filter: "mailbox", Split: 1},
 			{Scenario: "sess/rounds=2/closer=server/kill/drop", Budgets: bs(B(0, 2)), Split: 1},
 			{Scenario: "sess/rounds=3/hold=30s/dialto=20s/closer=server", Budgets: bs(B(1, 0)), Filter: "mailbox", Split: 1},
+			{Scenario: "sess/rounds=2/locks", Budgets: bs(B(2, 0)), Filter: "mailbox", Split: 2},
+			{Scenario: "sess/rounds=2/closer=server/v=1/locks", Budgets: bs(B(1, 0)), Filter: "mailbox", Split: 1},
 		},
 		quickS: 300, thoroughS: 1800,
 	},
